@@ -46,7 +46,7 @@ func secureOracle(r *rand.Rand, n int, tier string, infile string) (cases int, f
 		}
 	}
 	for i := 0; i < n; i++ {
-		switch i % 5 {
+		switch (oracleOffset + i) % 5 {
 		case 4:
 			cases += quicEvilCase(bad)
 		case 0:
@@ -301,6 +301,7 @@ func sshEvilCase(bad func(string, ...any)) int {
 	vSigner, _ := realssh.NewSignerFromSigner(edKey(202))
 	srv, err := sshswarm.New("127.0.0.1:0", sSigner)
 	if err != nil {
+		bad("C04 sshswarm evil case could not run: listen: %v", err)
 		return 1
 	}
 	defer srv.Close()
@@ -320,6 +321,7 @@ func sshEvilCase(bad func(string, ...any)) int {
 	evilssh.EvilQueryKeys = []evilssh.PublicKey{vPub}
 	conn, err := net.Dial("tcp", fmt.Sprintf("%s:%d", laddr.IP, laddr.Port))
 	if err != nil {
+		bad("C04 sshswarm evil case could not run: dial: %v", err)
 		return 1
 	}
 	defer conn.Close()
@@ -329,6 +331,8 @@ func sshEvilCase(bad func(string, ...any)) int {
 		Timeout:         2 * time.Second,
 	})
 	if err != nil {
+		// the holder of A proved A: a server that refuses it is not confused, but the case did not test anything
+		bad("C04 sshswarm evil case could not run: the connection of the holder of A was refused: %v", err)
 		return 1
 	}
 	defer cc.Close()
@@ -345,7 +349,8 @@ func sshEvilCase(bad func(string, ...any)) int {
 			}
 			bad("C04 sshswarm: after [query A, query V, sign with A] the message of the holder of A is attributed to %s (Src=%s lookup=%s)", who, fp, m.lookup)
 		}
-	case <-time.After(2 * time.Second):
+	case <-time.After(5 * time.Second):
+		bad("C04 sshswarm evil case could not run: the message of the holder of A never arrived")
 	}
 	return 1
 }
